@@ -53,7 +53,6 @@ var Classes = []string{
 	"key-order:ancestor-hi",
 }
 
-
 // rewriteFreelist returns the edits that write ids into the freelist allocation of r;
 // nil if they do not fit or the 0xFFFF convention is (or would be) in use.
 func rewriteFreelist(img []byte, r *Result, ids []uint64) []Edit {
